@@ -123,6 +123,8 @@ def families() -> dict[str, Family]:
             "update": lambda Q=Q: Q.update(t1).set(t1.a, 1).where(t1.b == 2),
             "updjoin": lambda Q=Q: Q.update(t1).join(t2).on(t1.a == t2.a).set(t1.a, t2.b).where(t2.c == 2),
             "delete": lambda Q=Q: Q.from_(t1).delete().where(t1.a == 1),
+            # a set operation as FROM source (its operands hold the tables the labels also use)
+            "from_setop": lambda Q=Q: Q.from_((Q.from_(t1).select(t1.a) + Q.from_(t2).select(t2.a)).as_("un")).select("a"),
             # tables written as attributes of one Schema object (every access is expected to give a table of its own)
             "schattr": lambda Q=Q: Q.from_(SCH.parts).select(SCH.parts.id, SCH.parts.qty).where(SCH.parts.qty > 3),
         }
@@ -157,6 +159,7 @@ def families() -> dict[str, Family]:
             L("for_update#of", "for_update", lambda r: r.for_update(of=("t2",))),
             L("for_update#of-many", "for_update", lambda r: r.for_update(of=unstable_names())),
             L("with_", "with_", lambda r: r.with_(sub(), "cte1")),
+            L("with_#same-name-other-body", "with_", lambda r: r.with_(other(), "cte1")),
             L("with_totals", "with_totals", lambda r: r.with_totals()),
             L("rollup#a", "rollup", lambda r: r.rollup(t1.d)),
             L("rollup#b", "rollup", lambda r: r.rollup(t1.e, t1.f)),
